@@ -44,7 +44,7 @@ CLAIMS = {
          "Equivalence with the hand expansion on concrete programs is not decided.", "§4 C07"),
  "C08": ("grammar extraction from nom combinators: terminal case and trivia-wrapper rules",
          "Every terminal containing a letter is matched case-insensitively; every terminal is reachable only behind a trivia wrapper unless tabled; text kept from a "
-         "case-insensitive keyword is never compared case-sensitively, neither against a literal anywhere nor along its flow out of the parser closure into the function it is handed to; the empty line comment is accepted; no parser function decides on the raw text of the input (starts_with / trim / find on a fragment) outside a two-line table; no look-ahead (`not`, `peek`) skips trivia. What the hand-written nested-comment scanner computes and equality of outputs for concrete layout variants is not decided.", "§4 C08"),
+         "case-insensitive keyword is never compared case-sensitively, neither against a literal anywhere nor along its flow out of the parser closure into the function it is handed to; the empty line comment is accepted; no parser function decides on the raw text of the input (starts_with / trim / find on a fragment) outside a two-line table; no look-ahead (`not`, `peek`) skips trivia; `else` and `from` are matched behind multi-line trivia. What the hand-written nested-comment scanner computes and equality of outputs for concrete layout variants is not decided.", "§4 C08"),
  "C09": ("table agreement + container-type and shape rules on HIR/MIR",
          "Config keys agree between validator, extractor and reference; banks and segments live in insertion-ordered containers and write_banks walks its Vec; the prg "
          "header bytes and defaults have the documented shape; every documented error has a diagnostic and Ok is returned only without errors; no configured option is "
@@ -52,7 +52,7 @@ CLAIMS = {
  "C10": ("type-directed hash-order detection on MIR (receiver types embed their source iterator) + frozen classification table + total-sort recognition",
          "Every consumer of a std hash_map/hash_set iterator in non-test code is order-insensitive by nature, sorted on a key that identifies the element, or tabled safe "
          "with a reason; containers whose order reaches output are insertion-ordered; the CLI emitter prints diagnostics in collection order. A new unclassified site is "
-         "reported; a walk in hash order branches on no first-come membership answer (visited-sets), so tabled reasons stay true; nothing reachable from `mos build` calls a process-seeded hasher, the clock, the process / thread identity, the environment or formats an address. File-system enumeration order and thread scheduling are not decided.", "§4 C10"),
+         "reported; a walk in hash order branches on no first-come membership answer (visited-sets), so tabled reasons stay true; nothing reachable from `mos build` calls a process-seeded hasher, the clock, the process / thread identity, the environment or formats an address, and every output file is created truncating, never appended to. File-system enumeration order and thread scheduling are not decided.", "§4 C10"),
  "C11": ("must-pass-through on MIR + two interprocedural label propagations (target vs physical address space)",
          "Single emission choke point with a source-map entry of exactly the emitted length on every path; no comparison or subtraction mixes a target-space address with "
          "a physical one without the relocation offset; macro re-attribution only under the listing option and by position; half-open address lookups; no context field is overwritten before and read after a nested activation of the code generator without being restored (re-entrancy analysis); listing rows are cut at address gaps, read from the entry's own segment and written to distinct files; the row without bytes and the rows with bytes are decided on the same collection (every source line gets a row); no collection there is keyed by a target address alone; the source map is append-only as long as entries are addressed by position; distinct source paths inside the project get distinct listing files. Row layout on concrete programs is not decided.", "§4 C11"),
@@ -82,7 +82,7 @@ CLAIMS = {
          "covers the store of Stopped(pc); the breakpoint test dominates every step of a free run and searches the shared list under its lock, exempting only the address the machine was halted at; next/stepIn/stepOut step under the same guard and stop through pause; next/stepOut follow the call depth (jsr/rts paired, not the stack pointer); breakpoints are kept per source file; evaluate fetches registers and flags on every path to the expression evaluator; every address range of a source line keeps its breakpoint; the adapter-backed ram() is registered only for machines without a program of their own. All other interleavings and stepping on concrete programs are not decided.", "§4 C19"),
  "C20": ("ownership/escape rule for Arc::try_unwrap + call-graph rules for blocking primitives + self-deadlock analysis over lock guards (MIR must-liveness)",
          "No force-unwrapped Arc::try_unwrap on an Arc whose clone another long-lived owner keeps; no joined thread can sit in a blocking accept; shutdown notifies handlers "
-         "before answering, never waits on another thread while doing so, and the debug session listens for it and completes the selected operation; no thread asks for a lock it already holds; a thread that its owner joins has no untimed wait the owner does not wake; the exit status does not depend on the debugger thread (no forced join result, no explicit panic reachable from the session loop outside a table, no forced configuration); shutdown handlers registered late are signalled at once; sleeps reachable from joined threads are bounded constants; the thread that accepts connections reads from no socket without a timeout; no destructor waits for a thread and the debugger thread is joined only behind the language server's main loop; in the whole-program lock-class graph no two classes are taken in opposite orders by different threads and none is re-acquired through a callee, outside two tabled pairs of distinct instances. Promptness beyond that and the cancellation of a step that never ends are not decided.", "§4 C20"),
+         "before answering, never waits on another thread while doing so, and the debug session listens for it and completes the selected operation; no thread asks for a lock it already holds; a thread that its owner joins has no untimed wait the owner does not wake; the exit status does not depend on the debugger thread (no forced join result, no explicit panic reachable from the session loop outside a table, no forced configuration); shutdown handlers registered late are signalled at once; sleeps reachable from joined threads are bounded constants; the thread that accepts connections reads from no socket without a timeout; no destructor waits for a thread and the debugger thread is joined only behind the language server's main loop; in the whole-program lock-class graph no two classes are taken in opposite orders by different threads and none is re-acquired through a callee, outside two tabled pairs of distinct instances; the debugger calls no workspace function outside the context's own methods while it holds the language server's context. Promptness beyond that and the cancellation of a step that never ends are not decided.", "§4 C20"),
 }
 
 NA = {
